@@ -14,7 +14,7 @@
      The footprint keeps what the PRECONDITION reads apart from what the EFFECTS read (conditions of conditional
      effects, right-hand sides): [effects_compatible] is non-interference without the precondition clauses — it is
      what makes the outcome independent of the order in which the members are applied. *)
-From Coq Require Import List String Bool PrimFloat Permutation.
+From Coq Require Import List String Bool Arith PrimFloat Permutation.
 From Verif Require Import Base.Str Spec.Pddl.
 Import ListNotations.
 Open Scope string_scope.
@@ -53,6 +53,30 @@ Record structure_ok (agents : list name) (plan : list call) (js : list joint) : 
   (* no step is all-nop *)
   st_nonempty : Forall (fun j => members j <> []) js
 }.
+
+(* the same, decidable (the check's oracle; Proofs/C15_Oracle.v: structure_okb = true -> structure_ok) *)
+Definition call_eqb (a b : call) : bool := String.eqb (fst a) (fst b) && list_eqb String.eqb (snd a) (snd b).
+
+Fixpoint forall2b {A B} (p : A -> B -> bool) (a : list A) (b : list B) : bool :=
+  match a, b with
+  | [], [] => true
+  | x :: a', y :: b' => p x y && forall2b p a' b'
+  | _, _ => false
+  end.
+
+Definition slot_okb (agents : list name) (ag : name) (c : call) : bool :=
+  call_eqb c nop || (negb (is_nop c) && executed_by agents ag c).
+
+Definition count_call (c : call) (l : list call) : nat := List.length (filter (call_eqb c) l).
+
+Definition structure_okb (agents : list name) (plan : list call) (js : list joint) : bool :=
+  let out := List.concat (map members js) in
+  forallb (fun j => forall2b (slot_okb agents) agents j) js &&
+  forallb (fun j => forallb (fun ag => Nat.leb (List.length (by_agent agents ag (members j))) 1) agents) js &&
+  forallb (fun ag => list_eqb call_eqb (by_agent agents ag out) (by_agent agents ag plan)) agents &&
+  (forallb (fun x => Nat.eqb (count_call x out) (count_call x plan)) plan &&
+   forallb (fun x => Nat.eqb (count_call x out) (count_call x plan)) out) &&
+  forallb (fun j => match members j with [] => false | _ => true end) js.
 
 (* ---------- the interpreter ---------- *)
 Record jworld := { jw_eps : float; jw_tt : tytree; jw_objs : objects; jw_actions : list action }.
@@ -234,3 +258,40 @@ Definition sound_regrouping (feq : float -> float -> bool) (w : jworld) (s0 : st
                 | None => False
                 end
   end.
+
+(* ---------- plan files ----------
+   A plan file is any text in which every action is written "(name arg ... arg)": the tokens are non-empty runs of
+   word characters, '+', '?' and '-', separated by white space (blanks, tabs, line breaks), optionally padded inside the
+   parentheses; between the actions stands ANY text without an opening parenthesis (step numbers, time stamps, line
+   breaks, durations in brackets).  The converter lower-cases the tokens. *)
+From Coq Require Import Ascii NArith.
+Open Scope char_scope.
+Definition tok_char (c : ascii) : bool :=
+  let n := N_of_ascii c in
+  (((48 <=? n) && (n <=? 57)) || ((65 <=? n) && (n <=? 90)) || ((97 <=? n) && (n <=? 122)))%N
+  || Ascii.eqb c "_" || Ascii.eqb c "+" || Ascii.eqb c "?" || Ascii.eqb c "-".
+Close Scope char_scope.
+
+Record plan_line := {
+  pl_before : text;                       (* anything without '(' *)
+  pl_lead : text;                         (* white space after '(' *)
+  pl_name : text;
+  pl_args : list (text * text);           (* (separator, token) *)
+  pl_trail : text                         (* white space before ')' *)
+}.
+
+Definition all_ws (t : text) : Prop := Forall (fun c => is_ws c = true) t.
+Definition is_token (t : text) : Prop := t <> [] /\ Forall (fun c => tok_char c = true) t.
+
+Definition plan_line_ok (l : plan_line) : Prop :=
+  Forall (fun c => c <> LP) (pl_before l) /\ all_ws (pl_lead l) /\ is_token (pl_name l) /\
+  Forall (fun st => fst st <> [] /\ all_ws (fst st) /\ is_token (snd st)) (pl_args l) /\ all_ws (pl_trail l).
+
+Definition line_body (l : plan_line) : text :=
+  pl_lead l ++ pl_name l ++ flat_map (fun st => fst st ++ snd st) (pl_args l) ++ pl_trail l.
+
+Definition render_plan (ls : list plan_line) (final : text) : text :=
+  flat_map (fun l => pl_before l ++ LP :: line_body l ++ [RP]) ls ++ final.
+
+Definition line_call (l : plan_line) : call :=
+  (t2s (lower_text (pl_name l)), map (fun st => t2s (lower_text (snd st))) (pl_args l)).
